@@ -23,6 +23,7 @@ import (
 
 type stateObs struct {
 	SS        int       `json:"ss"`
+	MSS       int       `json:"mss"`
 	SAT       []int32   `json:"sat"`
 	SSAT      []int32   `json:"ssat"`
 	MSAT      []int32   `json:"msat"`
@@ -31,6 +32,7 @@ type stateObs struct {
 	Root      int       `json:"root"`
 	Files     [][]int64 `json:"files"` // namelen type color left right child start size
 	Names     []string  `json:"names"` // hex of DirEnt.Name() (UTF-8 as relic sees it)
+	Units     [][]int   `json:"units"` // NameRunes of every entry (32 code units)
 	Hdr       []int64   `json:"hdr"`   // version dirsectors satsectors dirnext minstd ssatnext ssatcount msatnext msatcount
 }
 
@@ -43,6 +45,7 @@ type stepObs struct {
 	Out    string    `json:"out,omitempty"`
 	Dig    []string  `json:"dig,omitempty"` // direct, direct-ex, tar, tar-ex (hex) or "err:..."
 	Pre    *stateObs `json:"pre,omitempty"`
+	Mid    *stateObs `json:"mid,omitempty"` // after the operation, before Close
 	Post   *stateObs `json:"post,omitempty"`
 	Data   string    `json:"data,omitempty"` // hex of the added content (sign: pkcs || exsig)
 }
@@ -60,7 +63,7 @@ func snap(cdf *comdoc.ComDoc) *stateObs {
 	if len(cdf.SAT) > 8192 {
 		return nil
 	}
-	s := &stateObs{SS: cdf.SectorSize, Root: cdf.VerifRootStorage(), RootFiles: cdf.VerifRootFiles()}
+	s := &stateObs{SS: cdf.SectorSize, MSS: cdf.ShortSectorSize, Root: cdf.VerifRootStorage(), RootFiles: cdf.VerifRootFiles()}
 	conv := func(l []comdoc.SecID) []int32 {
 		out := make([]int32, len(l))
 		for i, v := range l {
@@ -74,6 +77,11 @@ func snap(cdf *comdoc.ComDoc) *stateObs {
 		s.Files = append(s.Files, []int64{int64(f.NameLength), int64(f.Type), int64(f.Color), int64(f.LeftChild), int64(f.RightChild),
 			int64(f.StorageRoot), int64(f.NextSector), int64(f.StreamSize)})
 		s.Names = append(s.Names, hex.EncodeToString([]byte(f.Name())))
+		u := make([]int, len(f.NameRunes))
+		for k, x := range f.NameRunes {
+			u[k] = int(x)
+		}
+		s.Units = append(s.Units, u)
 	}
 	h := cdf.Header
 	s.Hdr = []int64{int64(h.Version), int64(h.DirSectorCount), int64(h.SATSectors), int64(h.DirNextSector), int64(h.MinStdStreamSize),
@@ -193,6 +201,7 @@ func runScenario(c *core.Ctx, r *core.Rng, sc *scenario, input []byte, ops []op)
 			if err != nil {
 				return err
 			}
+			st.Mid = snap(cdf)
 			if err := cdf.Close(); err != nil {
 				return errors.New("close: " + err.Error())
 			}
@@ -525,6 +534,9 @@ func init() {
 			root.Kids = append(root.Kids, big)
 			run("difat-growth", "512-byte sectors, 109 FAT sectors almost full", Build(&Spec{Root: root}), []op{{kind: "sign", size: 9000, exsize: 32}, {kind: "sign", size: 2000, exsize: 32}})
 		}
+		// E. sibling names: entries whose names equal the operation's name under the MS-CFB comparison (length, then upper-cased
+		// UTF-16 code units) but are spelled differently, names that differ in one unit or in length, histories in several spellings
+		nameScenarios(c, r, run, dummy, thorough)
 		return nil
 	})
 
